@@ -50,6 +50,7 @@ ghost('XS_OK', ['Val', 'Val', 'Val', 'Val'], 'Bool')    # (doc, node_name, node_
 ghost('tmpfile', ['Val'], 'Val')        # name of the temporary file make_temp creates for given content
 ghost('pem', ['Val'], 'Val')            # PEM armour of a base64 certificate body (pem_format)
 ghost('md_certs', ['Val', 'Val'], 'Seq')    # signing certificates the metadata store holds for an entity id
+ghost('md_enc_certs', ['Val', 'Val'], 'Seq')    # encryption certificates ... (C16)
 ghost('inst_certs', ['Val'], 'Seq')     # certificates embedded in the KeyInfo of an element's own Signature
 ghost('cert_ok', ['Val', 'Val'], 'Bool')    # CertHandler.verify_cert accepts the certificate file
 
@@ -62,8 +63,9 @@ contract('saml2_tophat.sigver:cert_from_instance', trusted=False, pure=True, par
          ensures=['seq(result) == inst_certs(instance)'], modifies=[])
 contract('saml2_tophat.mdstore:MetaData.certs', trusted=False, pure=True, returns='List(Str)',
          types={'entity_id': 'Opt(Str)', 'descriptor': 'Str', 'use': 'Str'},
-         ensures=["implies(descriptor == 'any' and use == 'signing', seq(result) == md_certs(self, entity_id))"],
-         raises={'KeyError': "len(md_certs(self, entity_id)) == 0"}, modifies=[])
+         ensures=["implies(descriptor == 'any' and use == 'signing', seq(result) == md_certs(self, entity_id))",
+                  "implies(descriptor == 'any' and use == 'encryption', seq(result) == md_enc_certs(self, entity_id))"],
+         raises={'KeyError': "implies(use == 'signing', len(md_certs(self, entity_id)) == 0)"}, modifies=[])
 contract('saml2_tophat.sigver:CertHandler.verify_cert', trusted=False, pure=True, returns='Bool',
          types={'cert_file': 'Any'}, ensures=['truthy(result) == cert_ok(self, cert_file)'],
          raises={'Exception': 'True'}, modifies=[])
@@ -355,7 +357,7 @@ contract('saml2_tophat.sigver:pre_encrypt_assertion', trusted=True, params=['res
 contract('posix:unlink', trusted=True, pure=True, params=['path'], raises={'OSError': 'True'}, assumptions=['E-PROC'])
 
 contract(XB + '.encrypt_assertion',
-         types={'statement': 'Str', 'enc_key': 'Str', 'template': 'Str', 'key_type': 'Str', 'node_xpath': 'Opt(Str)', 'node_id': 'Opt(Str)'},
+         types={'statement': "Union(Str, Inst('saml2_tophat:SamlBase'))", 'enc_key': 'Str', 'template': 'Any', 'key_type': 'Str', 'node_xpath': 'Opt(Str)', 'node_id': 'Opt(Str)'},
          returns='Str',
          ensures=[# C20: what is returned is the (non-empty) output the tool wrote, never the unencrypted statement
                   ('C20-result-is-tool-output', 'exists(lambda o: is_bytes(o) and len(bytes_of(o)) > 0 and str_of(result) == unutf8(bytes_of(o)), "Val")')],
